@@ -24,8 +24,10 @@
     order / parent positions of the *result* are not modelled (obs_C09 is order
     free).  `AddBipartition`'s refusal (`len(edges) ≤ 1 ∨ len(edges) ≥ deg-1`)
     is ignored by `Consensus` and so it is here.
-  * Input trees whose root has fewer than two neighbours (a root that is itself a
-    tip) are outside the property's domain; the model answers `unsupported`.
+  * An input tree whose root is itself a tip is re-rooted at the neighbour of that tip
+    before anything else (`rerootTip`, since 5a3a76a); a tree that still has a root with
+    fewer than two neighbours (a single node, two tips) is outside the property's domain:
+    the model answers `unsupported`.
 -/
 import Gotree.Model.Core
 
@@ -92,9 +94,10 @@ end
 def removeSingles : T → T
   | .node d p k => .node d p (removeSinglesL k)
 
-/-- `Tree.AllTipNames` (a root with one neighbour is reported alone). -/
+/-- `Tree.AllTipNames`: since 9642e30 a root with one neighbour is reported and the
+    traversal goes on below it (the order of `Tips()`); before, it was reported alone. -/
 def allTipNames (t : T) : List String :=
-  if t.kids.length == 1 then [t.name] else leavesL t.kids
+  (if t.kids.length == 1 then [t.name] else []) ++ leavesL t.kids
 
 /-- some element occurs twice -/
 def hasDup : List String → Bool
@@ -303,12 +306,19 @@ def countAll (unr rs : Bool) : List T → Except String (Option Counted)
     | .ok c => .ok (some c)
     | .error w => .error w
 
-/-- `Consensus`, with the unrooting of rooted inputs and the removal of single-child
-    nodes switchable (the variants without them are the pinned trees before the fixes
-    8466f11, F34, and 5dad91e). -/
-def consensusG (unr rs : Bool) (ord : List Entry → List Entry) (ts : List T) (c : Rat) : Out :=
-  if c < 1/2 || c > 1 then .err "range"
-  else if ts.any (fun t => t.kids.length < 2) then .unsupported
+/-- `Reroot(r.Neigh()[0])` when the root `r` is a tip and its neighbour is not (tree/algo.go,
+    since 5a3a76a): the neighbour becomes the root, the old root is its child at the position
+    the parent occupied (`ppos`), no neighbour order changes. -/
+def rerootTip (t : T) : T :=
+  match t.kids with
+  | [(e, v)] =>
+    if v.kids.isEmpty then t
+    else .node v.d 0 (v.kids.take v.ppos ++ (e, .node t.d 0 []) :: v.kids.drop v.ppos)
+  | _ => t
+
+/-- the body of `Consensus` after the threshold check, on trees already re-rooted by `rerootTip` -/
+def consensusCore (unr rs : Bool) (ord : List Entry → List Entry) (ts : List T) (c : Rat) : Out :=
+  if ts.any (fun t => t.kids.length < 2) then .unsupported
   else match countAll unr rs ts with
     | .error w => .err w
     | .ok none => .err "empty"   -- since 29626f3: no tree in the input is an error (it was a nil dereference)
@@ -317,6 +327,13 @@ def consensusG (unr rs : Bool) (ord : List Entry → List Entry) (ts : List T) (
       match applyAll cn.alltips cn.n (starOf cn.first) sel with
       | .ok r => .ok r
       | .error w => .err w
+
+/-- `Consensus`, with the unrooting of rooted inputs and the removal of single-child
+    nodes switchable (the variants without them are the pinned trees before the fixes
+    8466f11, F34, and 5dad91e). -/
+def consensusG (unr rs : Bool) (ord : List Entry → List Entry) (ts : List T) (c : Rat) : Out :=
+  if c < 1/2 || c > 1 then .err "range"
+  else consensusCore unr rs ord (ts.map rerootTip) c
 
 def consensus (ord : List Entry → List Entry) (ts : List T) (c : Rat) : Out := consensusG true true ord ts c
 
@@ -444,5 +461,50 @@ def domB (ts : List T) : Bool :=
 /-- every branch length is absent (`NIL`) or non-negative (hypothesis of the length bridge) -/
 def lensOK (ts : List T) : Bool :=
   ts.all fun t => t.splits.all fun s => s.e.len == NIL || decide (0 ≤ s.e.len)
+
+/-! ## `cmd/consensus.go`: the threshold option -/
+
+/-- value of a digit string (base 10) -/
+def digitsVal (l : List Char) : Nat := l.foldl (fun n ch => 10 * n + (ch.toNat - 48)) 0
+
+/-- The text of `-f` as cobra/pflag reads a `Float64Var` (`strconv.ParseFloat(s, 64)`),
+    restricted to the decimal syntax `[+-]digits[.digits][(e|E)[+-]digits]` with at least one
+    mantissa digit; the value is the exact rational of the text (the harness only uses
+    texts whose value is a float64).  `none` = flag error (the command is not run).
+    Hexadecimal floats, `inf`, `nan` and `_` separators are not modelled. -/
+def parseCutoff (s : String) : Option Rat :=
+  let cs := s.toList
+  let (neg, cs) := match cs with
+    | '+' :: r => (false, r)
+    | '-' :: r => (true, r)
+    | r => (false, r)
+  let ip := cs.takeWhile Char.isDigit
+  let r1 := cs.dropWhile Char.isDigit
+  let (fp, r2) := match r1 with
+    | '.' :: r => (r.takeWhile Char.isDigit, r.dropWhile Char.isDigit)
+    | r => ([], r)
+  if ip.isEmpty && fp.isEmpty then none else
+  let mant : Rat := ((digitsVal (ip ++ fp) : Nat) : Rat) / ((10 ^ fp.length : Nat) : Rat)
+  let withExp : Option Rat :=
+    match r2 with
+    | [] => some mant
+    | ch :: r =>
+      if ch == 'e' || ch == 'E' then
+        let (eneg, ds) := match r with
+          | '+' :: d => (false, d)
+          | '-' :: d => (true, d)
+          | d => (false, d)
+        if ds.isEmpty || !ds.all Char.isDigit then none
+        else
+          let k := digitsVal ds
+          some (if eneg then mant / ((10 ^ k : Nat) : Rat) else mant * ((10 ^ k : Nat) : Rat))
+      else none
+  withExp.map fun v => if neg then -v else v
+
+/-- the threshold `Consensus` is called with: the flag's documented default is 0.5 -/
+def cliCutoff (ftext : Option String) : Option Rat :=
+  match ftext with
+  | none => some (1/2)
+  | some s => parseCutoff s
 
 end Gotree.C09
